@@ -4,7 +4,7 @@
 # tree into a separate build directory and runs the property's quick check there. Evidence of these runs goes to a
 # scratch file, never to /verif/evidence.
 set -u
-patch=$1; prop=$2; shift 2
+patch=$(readlink -f "$1"); prop=$2; shift 2
 wt=/tmp/mut/try_wt
 variant=asan; [ "$prop" = C36 ] && variant=tsan
 mkdir -p /tmp/mut
